@@ -163,7 +163,7 @@ HARNESSES = {"interp": h_interp, "kernel": h_kernel}
 
 C1 = {"frac": [[0.3], [-1.6], [1.25]], "int": [[0.0], [1.0], [-2.0]], "half": [[0.5], [-1.5], [2.5]], "far": [[7.3], [-9.5]], "dup": [[0.25], [0.25]],
       "neg": [[-0.75], [-3.0]]}
-C2 = {"frac": [[0.3, -0.7], [1.2, 0.4]], "tie": [[0.5, -1.0], [-0.5, 1.5]], "far": [[5.25, -6.5]], "dup": [[0.25, 0.5], [0.25, 0.5]], "int": [[1.0, 0.0]]}
+C2 = {"fracy": [[0.6, 0.2], [-1.25, 0.5], [1.75, -0.3]], "frac": [[0.3, -0.7], [1.2, 0.4]], "tie": [[0.5, -1.0], [-0.5, 1.5]], "far": [[5.25, -6.5]], "dup": [[0.25, 0.5], [0.25, 0.5]], "int": [[1.0, 0.0]]}
 C3 = {"frac": [[0.3, -0.7, 0.2]], "tie": [[0.5, 1.0, -0.5]], "far": [[4.5, -3.25, 6.0]]}
 KERN = [("spline", 0), ("spline", 1), ("spline", 2), ("kaiser_bessel", 2.34)]
 
@@ -181,6 +181,8 @@ def configs(tier, seed):
             for w in ((1, 1.5, 2, 3, 4) if full or cname in ("frac", "half") else (2, 3)):
                 for n in ((1, 2, 3, 4) if full else (3,)):
                     add([n], [], c, kern, w, prm, "1d-" + cname)
+        add([4], [], [[0.6], [-1.25], [1.75]], kern, 3, prm, "1d-oddw")
+        add([4], [], [[0.6], [-1.25], [1.75]], kern, 2.5, prm, "1d-fracw")
         add([3], [2], C1["frac"], kern, 2, prm, "1d-batch")
         add([4], [2, 1], C1["half"], kern, 2.5, prm, "1d-batch2")
         for cname, c in C2.items():
@@ -189,6 +191,10 @@ def configs(tier, seed):
                 add([2, 3], [2], c, kern, [3, 1.5], prm, "2d-w2-" + cname)
                 add([1, 4], [], c, kern, [1, 4], prm, "2d-len1-" + cname)
         add([3, 3], [], C2["tie"], kern, [2, 3], prm, "2d-peraxis")
+        # odd / fractional widths on EACH axis with coordinates whose fractional part is above one half (upper window limit floor(k + W/2))
+        add([3, 4], [], C2["fracy"], kern, [3, 2], prm, "2d-oddw-y")
+        add([4, 3], [], C2["fracy"], kern, [1.5, 3], prm, "2d-fracw-y")
+        add([2, 3, 3], [], [[0.6, 1.75, -0.7], [-0.3, 0.55, 1.6]], kern, [3, 1.5, 3], prm, "3d-oddw")
         # grids with singleton axes: the kernel still contributes its weights along them
         add([1, 3], [], C2["frac"], kern, [3, 2], prm, "2d-len1a")
         add([3, 1], [], C2["tie"], kern, [2, 4], prm, "2d-len1b")
